@@ -1541,6 +1541,7 @@ func main() {
 		seed, _ := strconv.ParseUint(os.Args[2], 10, 64)
 		o := hx.NewOut(os.Args[4], os.Args[5])
 		genAll(seed, os.Args[3], o)
+		o.Retry(runCase) // a case that ran out of time in this pass is re-run alone with 10x deadlines
 		o.Close()
 		return
 	}
@@ -1567,6 +1568,7 @@ func main() {
 		for _, l := range obs {
 			o.Obs(l)
 		}
+		o.Retry(runCase) // a case that ran out of time in this pass is re-run alone with 10x deadlines
 		o.Close()
 		return
 	}
